@@ -207,6 +207,21 @@ MUTANTS = [
      "    if include_local_version:\n", "    if True:\n"),
     ("c09-stopiteration-fastpath", "C09", "rpyc/core/vinegar.py",
      "    if typ is StopIteration and (val is None or not (val.args or getattr(val, \"__dict__\", None))):", "    if typ is StopIteration:"),
+    # ---- C19
+    ("c19-tag-renumbered", "C19", "rpyc/core/brine.py", "TAG_SLICE = b\"\\x19\"\nTAG_FSET = b\"\\x1a\"", "TAG_SLICE = b\"\\x1a\"\nTAG_FSET = b\"\\x19\""),
+    ("c19-label-renumbered", "C19", "rpyc/core/consts.py", "LABEL_LOCAL_REF = 3\nLABEL_REMOTE_REF = 4", "LABEL_LOCAL_REF = 4\nLABEL_REMOTE_REF = 3"),
+    ("c19-handler-renumbered", "C19", "rpyc/core/consts.py", "HANDLE_REPR = 9\nHANDLE_STR = 10", "HANDLE_REPR = 10\nHANDLE_STR = 9"),
+    ("c19-msg-renumbered", "C19", "rpyc/core/consts.py", "MSG_REPLY = 2\nMSG_EXCEPTION = 3", "MSG_REPLY = 3\nMSG_EXCEPTION = 2"),
+    ("c19-header-64bit", "C19", "rpyc/core/channel.py", "    FRAME_HEADER = Struct(\"!LB\")", "    FRAME_HEADER = Struct(\"!QB\")"),
+    ("c19-header-little-endian", "C19", "rpyc/core/channel.py", "    FRAME_HEADER = Struct(\"!LB\")", "    FRAME_HEADER = Struct(\"<LB\")"),
+    ("c19-no-newline", "C19", "rpyc/core/channel.py", "    FLUSHER = BYTES_LITERAL(\"\\n\")", "    FLUSHER = BYTES_LITERAL(\"\\r\")"),
+    ("c19-threshold-4096", "C19", "rpyc/core/channel.py", "    COMPRESSION_THRESHOLD = 3000", "    COMPRESSION_THRESHOLD = 4096"),
+    ("c19-threshold-ge", "C19", "rpyc/core/channel.py", "        if self.compress and len(data) > self.COMPRESSION_THRESHOLD:", "        if self.compress and len(data) >= self.COMPRESSION_THRESHOLD:"),
+    ("c19-compression-level", "C19", "rpyc/core/channel.py", "    COMPRESSION_LEVEL = 1", "    COMPRESSION_LEVEL = 6"),
+    ("c19-len-le-256", "C19", "rpyc/core/brine.py", "    elif lenobj < 256:\n        stream.append(TAG_STR_L1 + I1.pack(lenobj) + obj)", "    elif lenobj < 255:\n        stream.append(TAG_STR_L1 + I1.pack(lenobj) + obj)"),
+    ("c19-imm-int-range", "C19", "rpyc/core/brine.py", "IMM_INTS = dict((i, bytes([i + 0x50])) for i in range(-0x30, 0xa0))", "IMM_INTS = dict((i, bytes([i + 0x50])) for i in range(-0x30, 0x9f))"),
+    ("c19-tuple-always-long", "C19", "rpyc/core/brine.py", "    elif lenobj == 4:\n        stream.append(TAG_TUP4)", "    elif lenobj == 4 and False:\n        stream.append(TAG_TUP4)"),
+    ("c19-kwargs-as-dictitems-unsorted-ok", "C19", "rpyc/core/protocol.py", "    def _handle_str(self, obj):  # request handler\n        return str(obj)", "    def _handle_str(self, obj):  # request handler\n        return repr(obj)"),
     # ---- C10
     ("c10-decref-le", "C10", "rpyc/lib/colls.py",
      "            if slot[1] < count:", "            if slot[1] <= count:"),
